@@ -582,6 +582,27 @@ class Builder:
                 self._emit('stmt', asg, frame)
                 self._body(s.body, frame)
         elif isinstance(s, ast.For) and \
+                self._table_iter(s, frame) is not None:
+            # `for cls, handler in _TABLE:` over a module-level display of
+            # module-level names / constants: the body runs once per row,
+            # the loop variables read as what the row names
+            import copy as _copy
+            for subst in self._table_iter(s, frame):
+                if not self.dangling:
+                    break
+
+                class _Sub(ast.NodeTransformer):
+                    def visit_Name(self, node, subst=subst):
+                        if isinstance(node.ctx, ast.Load) and \
+                                node.id in subst:
+                            new = _copy.deepcopy(subst[node.id])
+                            return ast.copy_location(new, node)
+                        return node
+                body = [_Sub().visit(_copy.deepcopy(st)) for st in s.body]
+                for st in body:
+                    ast.fix_missing_locations(st)
+                self._body(body, frame)
+        elif isinstance(s, ast.For) and \
                 self._star_iter(s, frame) is not None:
             # `for cond, reply in checks:` over the *args of an inlined
             # helper whose call site spells them out: the body runs once per
@@ -1252,6 +1273,70 @@ class Builder:
                 if isinstance(x, (ast.Break, ast.Continue)):
                     return None
         return list(it.elts)
+
+    def _table_iter(self, s: ast.For, frame):
+        """per iteration {loop variable: expression} for a `for` over a
+        module-level tuple / list display (at most 6 rows) whose rows are
+        constants / module-level names (or displays of them, for a tuple
+        target); the body neither breaks nor continues nor re-binds the
+        loop variables"""
+        from .model import walk_own
+        fn = frame.ctx.func
+        it = s.iter
+        if s.orelse or not isinstance(it, ast.Name):
+            return None
+        if it.id in fn.params or any(
+                isinstance(x, ast.Name) and x.id == it.id and
+                isinstance(x.ctx, (ast.Store, ast.Del))
+                for x in walk_own(fn.node)):
+            return None
+        table = fn.module.globals.get(it.id)
+        if not isinstance(table, (ast.Tuple, ast.List)) or \
+                not (1 <= len(table.elts) <= 6):
+            return None
+        tg = s.target
+        names = [tg] if isinstance(tg, ast.Name) else (
+            list(tg.elts) if isinstance(tg, (ast.Tuple, ast.List)) else None)
+        if names is None or not all(isinstance(x, ast.Name) for x in names):
+            return None
+        ids = {x.id for x in names}
+        for st in s.body:
+            for x in ast.walk(st):
+                if isinstance(x, (ast.Break, ast.Continue)):
+                    return None
+                if isinstance(x, ast.Name) and x.id in ids and \
+                        isinstance(x.ctx, (ast.Store, ast.Del)):
+                    return None
+
+        def fixed(x):
+            if isinstance(x, ast.Constant):
+                return True
+            if isinstance(x, ast.Attribute):
+                return fixed(x.value)
+            if not isinstance(x, ast.Name):
+                return False
+            if x.id in fn.params or any(
+                    isinstance(y, ast.Name) and y.id == x.id and
+                    isinstance(y.ctx, (ast.Store, ast.Del))
+                    for y in walk_own(fn.node)):
+                return False
+            m = fn.module
+            return x.id in m.globals or x.id in getattr(m, 'imports', {}) \
+                or x.id in getattr(m, 'functions', {}) or \
+                x.id in getattr(m, 'classes', {})
+        out = []
+        for row in table.elts:
+            if isinstance(tg, ast.Name):
+                if not fixed(row):
+                    return None
+                out.append({tg.id: row})
+            else:
+                if not (isinstance(row, (ast.Tuple, ast.List)) and
+                        len(row.elts) == len(names) and
+                        all(fixed(el) for el in row.elts)):
+                    return None
+                out.append({n.id: el for n, el in zip(names, row.elts)})
+        return out
 
     def _same_everywhere(self, ex, ef, frame):
         """the expression means the same in both frames: a constant, or a
